@@ -502,8 +502,11 @@ def build(case):
                     if indep and k > 1:
                         p.op("barrier", expect=None)
                     applied.append((idx, values))
+                stay = False
                 if indep:
                     if a is sc["data"][-1] and sc.get("leave_indep") and si < len(case["scopes"]) - 1 and not case["scopes"][si + 1].get("reopen"):
+                        # no end_indep, no sync: ncmpi_redef itself has to leave independent mode and agree on the record count
+                        stay = True
                         labels.add("redef_from_indep_mode")
                         if d["rec"] and k > 1:
                             nontrivial = True
@@ -515,7 +518,10 @@ def build(case):
                 if before and int((fm.vars[v].mask == 2).sum()) not in (0, before):
                     labels.add("partial_write_into_filled")
                 labels.add("write_rec" if d["rec"] else "write_fix")
-                p.op("fence", step=True, f="f0")
+                if stay:
+                    p.op("barrier", expect=None)
+                else:
+                    p.op("fence", step=True, f="f0")
     # ---- wrap up
     dump("final dumpall")
     p.op("close", step=True, f="f0")
@@ -622,7 +628,7 @@ def coverage_extra(stats, tier):
 
 
 def campaign(ctx):
-    n = {"quick": 150, "thorough": 2500}[ctx.tier]     # per worker
+    n = {"quick": 450, "thorough": 2500}[ctx.tier]     # per worker
     runner.run_hypothesis(ctx, case_strategy(ctx.tier), runner.guarded(run_case), n)
 
 
